@@ -158,6 +158,14 @@ def concrete_process(inp):
         for i in (0, 1):
             if not close(j[i], m.partial_fluxes[k][i], 1e-9):
                 bad.append("step %d flux%d: reported %r, standalone at the reported state %r" % (k, i + 1, float(m.partial_fluxes[k][i]), float(j[i])))
+        if not inp["kind"].startswith("non_ideal"):
+            # an ideal model's state carries no permeances of its own: the standalone calculation looks them up in the membrane
+            j0 = pz.calculate_partial_fluxes(feed_temperature=m.feed_temperature[k], composition=m.feed_compositions[k], precision=inp.get("prec") or 5e-5,
+                                             permeate_temperature=inp.get("Tp"), permeate_pressure=inp.get("Pp"), calculation_type=inp.get("model", "NRTL"))
+            for i in (0, 1):
+                if not close(j0[i], m.partial_fluxes[k][i], 1e-9):
+                    bad.append("step %d flux%d: reported %r, standalone at the reported temperature and composition (membrane permeances) %r"
+                               % (k, i + 1, float(m.partial_fluxes[k][i]), float(j0[i])))
         y = float(m.partial_fluxes[k][0] / sum(m.partial_fluxes[k]))
         if not close(m.permeate_composition[k].p, y, 1e-9):
             bad.append("step %d permeate composition %r vs %r" % (k, m.permeate_composition[k].p, y))
@@ -172,13 +180,20 @@ def process_steps(job, kind, mode, tier):
     job.bound(process_steps_N=N)
     job.stub("FLUX(...) recording stub for calculate_partial_fluxes", "PERM_i(T)", "HVAP/CP/COOL", "find_best_fit -> symbolic function", "EA_i")
     R2 = "vf.props.C08:concrete_process"
-    for model in ("NRTL", "UNIQUAC"):
-        for basis in ("weight", "molar"):
-            ps = proc.ProcSetup(kind, mode, basis, None, N, n_curves=2, model=model)
+    from ..symx import UF
+    ideal = not kind.startswith("non_ideal")
+    configs = [(model, basis, None) for model in ("NRTL", "UNIQUAC") for basis in ("weight", "molar")]
+    if "non_isothermal" in kind:
+        configs.append(("NRTL", "weight", "polynomial"))
+    for model, basis, program in configs:
+        if True:
+            ps = proc.ProcSetup(kind, mode, basis, program, N, n_curves=2, model=model)
             dom = ps.domain()
             inputs = ps.inputs()
-            fb = [dict(f) for f in realrun.proc_fallback(mode, None)]
-            tag = "C08/process/%s/%s/%s/%s" % (proc.SHORT[kind], mode, model, basis)
+            fb = [dict(f) for f in realrun.proc_fallback(mode, program)]
+            # finely resolved runs (temperature moving by ~1e-3 K per step) as further replay points
+            fb += [dict(f, A=0.05, m0=60.0, dt=0.002, N=6) for f in realrun.proc_fallback(mode, program)[:1]]
+            tag = "C08/process/%s/%s/%s/%s" % (proc.SHORT[kind], mode, model, basis) + ("/" + program if program else "")
             with Patches() as pt:
                 ps.install(pt, name_state=True)
                 got = 0
@@ -208,6 +223,11 @@ def process_steps(job, kind, mode, tier):
                                    "model %r, basis %r" % (a["calculation_type"], a["composition"].type), nontrivial=False,
                                    replay={"fn": R2, "inputs": dict(fb[0], kind=kind, mode=mode, model=model, basis=basis, N=N)})
                         job.prove(tag + "/question_is_reported_state/k%d" % k, cs, neg, R2, inputs, fallback=fb)
+                        if ideal:
+                            Tk = m.feed_temperature[k]
+                            job.prove(tag + "/permeances_are_the_membranes_at_the_step_temperature/k%d" % k, cs,
+                                      [lift(m.permeances[k][i].value) != UF("PERM%d" % (i + 1), Tk, nonneg=True) for i in (0, 1)],
+                                      R2, inputs, fallback=fb, congruence=["PERM1", "PERM2"])
                         J1, J2 = j[0].t, j[1].t
                         y = J1 / (J1 + J2)
                         job.prove(tag + "/fluxes_and_permeate/k%d" % k, cs,
